@@ -131,7 +131,9 @@ class Gen:
 
     def cfg_atom(self):
         return self.pick(['feature = "a"', 'feature = "b"', "unix", 'target_os = "none"', "ca", "cb", "cc", 'feature = "zz"',
-                          "any(ca, cb)", "not(cb)", "ca1", "any(unix, cc)"])
+                          "any(ca, cb)", "not(cb)", "ca1", "any(unix, cc)",
+                          # whitespace inside a string literal is part of the predicate
+                          'board = "rev a"', 'feature = "x  y"'])
 
     def field(self, name, start, end, base=None, access_p=0.3, conv_p=0.25, cfg_p=0.0, enum_bad=0.0, single=False):
         f = {"name": name, "base": base or self.pick(["uint", "uint", "int", "bool"]), "start": start}
